@@ -1218,11 +1218,13 @@ class SpecMon(Monitor):
                     return  # the same reference state with a longer run: already covered
                 st.flags["$runfin"] = memo + (key,)
                 m.unfold_run(st)
+            # otherwise the reference has its verdict from the bytes in front of the run
         kind, payload = decode_result(m, st, rv, self.kind)
         # feed the look-ahead the implementation has seen but not consumed
         sim = self.clone()
         k = 0
-        while sim.q[0] not in ("DONE", "ERR") and k < len(st.tape):
+        ntape = len(st.tape) if st.run is None else st.ahead[1]
+        while sim.q[0] not in ("DONE", "ERR") and k < ntape:
             cid = st.tape[k]
             if sim.pend is not None and sim.q[0] not in ("VE", "WE"):
                 break
@@ -1327,9 +1329,12 @@ class SpecMon(Monitor):
                 sim.detect(m, st, c, ("B", ((t, 1),), 0), replay=True)
         # run the detector over the look-ahead the implementation has seen but not consumed
         k = 0
-        while sim.det[0] not in ("fired", "lost") and k < len(st.tape):
+        ntape = len(st.tape) if st.run is None else st.ahead[1]
+        while sim.det[0] not in ("fired", "lost") and k < ntape:
             sim.detect(m, st, st.tape[k], ("B", ((st.cur_tok(), 1),), k + 1), replay=True)
             k += 1
+        if st.run is not None and sim.det[0] not in ("fired", "lost"):
+            sim.det = ("lost",)  # the detector cannot see through an unconsumed measured run
         det, at = sim.det, sim.det_at
         if det[0] == "lost":
             return
